@@ -362,7 +362,7 @@ pub fn run(o: &Opts) -> i32 {
         return 2;
     }
     let thorough = o.tier == "thorough";
-    let maps: u64 = if thorough { 12_000 } else { 600 };
+    let maps: u64 = if thorough { 40_000 } else { 2_400 };
     let n_seeds = if thorough { 8 } else { 4 };
     let mut rep = Report::new(&o.out, "C15", o.shard);
     let mut total = MapStats::default();
@@ -415,7 +415,7 @@ pub fn run(o: &Opts) -> i32 {
     // ---- D4 sweep: values and types (exhaustive for small domains)
     {
         let small = crate::sweep::small_types();
-        let random_items: usize = if thorough { 200_000 } else { 6_000 };
+        let random_items: usize = if thorough { 600_000 } else { 12_000 };
         let total_items = small.len() + 65 * 16 + random_items;
         let mut st = crate::sweep::SweepStats::default();
         let shard = o.shard;
